@@ -27,6 +27,8 @@ import PhQVerif.Checkers
 import PhQVerif.Generated.Obl_C10dir
 import PhQVerif.Generated.Obl_C10mag
 import PhQVerif.Generated.Obl_C10scale
+import PhQVerif.Generated.Obl_C17access
+import PhQVerif.Theory.Access
 import PhQVerif.Theory.Arith
 
 namespace PhQVerif.Props.C10
@@ -143,7 +145,29 @@ theorem scalar_times_direction_constructors :
         · rw [hev]; exact Fl.mul_comm _ _ _
   · simp [hargs'] at hargs
 
+/-- **C10 (typed component accessors).** `x()`, `y()`, `z()` of every vector-valued quantity (and the
+component accessors of every other multi-component type) return exactly the stored component of that
+name: accessor number `k` returns stored slot `k`, for all values. -/
+theorem typed_component_accessors :
+    ∀ e ∈ quantityEntries, ∀ k, e.mem = .comp k →
+      ∃ ex, e.numOuts = some [ex] ∧ k < classComps classes e.cls ∧
+        ∀ (L : Libm) (env : Nat → Fl), ex.evalF L env = env k := by
+  intro e he k hk
+  have h : Chk.C17access e = true := List.all_eq_true.mp Obl.C17access e he
+  simp only [Chk.C17access, checkAccess, hk] at h
+  cases ho : e.numOuts with
+  | none => simp [ho] at h
+  | some outs =>
+    simp only [ho] at h
+    match outs, h with
+    | [ex], h =>
+      simp only [Bool.and_eq_true, decide_eq_true_eq] at h
+      exact ⟨ex, rfl, h.1, fun L env => isVar_sound h.2 L env⟩
+
 /-! ### Non-vacuity -/
+
+example : (f64.«Force::y()»).mem = .comp 1 := by decide
+
 
 example : (f64.«Displacement::ctor(Length,Direction)»).isScaleDirCtor classes = true := by decide
 
